@@ -86,15 +86,21 @@ func Load(cfg Config) (*Ctx, error) {
 		env = append(env, "GOARCH="+cfg.GOARCH)
 	}
 	pc := &packages.Config{
+		// syntax and type information for the packages of the module (./...); their dependencies (the standard library) come
+		// from export data in the build cache: no rule looks into a standard-library function body, and this makes a load
+		// four times cheaper (the self-test loads the tree once per mutant and per negative control)
 		Mode: packages.NeedName | packages.NeedFiles | packages.NeedCompiledGoFiles | packages.NeedImports |
-			packages.NeedDeps | packages.NeedTypes | packages.NeedSyntax | packages.NeedTypesInfo |
+			packages.NeedTypes | packages.NeedSyntax | packages.NeedTypesInfo |
 			packages.NeedTypesSizes | packages.NeedModule,
 		Dir:   cfg.Repo,
 		Env:   env,
 		Tests: false,
 	}
+	// -trimpath: export data is then keyed by content, not by directory, so the scratch copies the self-test analyses
+	// (one per mutant and per negative control) hit the build cache for every package their patch does not touch
+	pc.BuildFlags = []string{"-trimpath"}
 	if cfg.Tags != "" {
-		pc.BuildFlags = []string{"-tags=" + cfg.Tags}
+		pc.BuildFlags = append(pc.BuildFlags, "-tags="+cfg.Tags)
 	}
 	pkgs, err := packages.Load(pc, "./...")
 	if err != nil {
